@@ -14,3 +14,28 @@ Definition chk_c02 (c : design * bool) : Z :=
 Definition fault_class (c : design * bool) : Z :=
   match wf_design (fst c) with Ok _ => 0 | Error e => err_code e end.
 Definition classes (l : list (design * bool)) : list (Z * Z) := number_from 0 fault_class l.
+
+(* ---- bundle designs (Spec/C02BundleWf.v) ---- *)
+Require Import Hdl21.Spec.C02BundleWf.
+
+Definition chk_c02b (c : bdesign * bool) : Z :=
+  let '(d, impl_accepts) := c in
+  match bwf_design d with
+  | Ok _ => 9
+  | Error _ => if impl_accepts then 1 else 0
+  end.
+Definition fault_class_b (c : bdesign * bool) : Z :=
+  match bwf_design (fst c) with Ok _ => 0 | Error e => err_code e end.
+Definition classes_b (l : list (bdesign * bool)) : list (Z * Z) := number_from 0 fault_class_b l.
+
+(* ---- the unmutated base designs: valid by the specification, and then the implementation must accept them
+   at all three entry points (guards against a check that is satisfied by rejecting everything).
+   second component: did ALL entry points return normally?   10: valid design rejected; 11: generator produced
+   a base design the specification calls faulty *)
+Definition chk_base (c : design * bool) : Z :=
+  match wf_design (fst c) with Ok _ => if snd c then 0 else 10 | Error _ => 11 end.
+Definition chk_base_b (c : bdesign * bool) : Z :=
+  match bwf_design (fst c) with Ok _ => if snd c then 0 else 10 | Error _ => 11 end.
+
+(* one evaluation for both numbers: code * 1000 + error class, for every case *)
+Definition both {A} (f g : A -> Z) (l : list A) : list (Z * Z) := number_from 0 (fun c => f c * 1000 + g c) l.
